@@ -30,6 +30,8 @@ RECORD = os.environ.get('VH_RECORD', 'OMEGA')
 KINDS = [(1, False, False, False), (1, False, True, True), (2, False, False, False), (2, False, True, False),
          (3, False, False, True), (3, False, True, False), (0, True, False, False)]
 NKIND = len(KINDS)
+C0LO = int(os.environ.get('VH_C0LO', '0'))         # optional case split on the kind of the first block
+C0HI = int(os.environ.get('VH_C0HI', str(NKIND)))
 
 
 def _pick(x, lo, hi):
@@ -133,24 +135,30 @@ def _body(c0, c1, c2, c3):
 
 
 def _lim(i):
-    return NKIND if i < NB else 1
+    if i >= NB:
+        return 1
+    return min(C0HI, NKIND) if i == 0 else NKIND
+
+
+def _lo(i):
+    return C0LO if i == 0 and NB > 0 else 0
 
 
 def blocks_ok(c0: int, c1: int, c2: int, c3: int) -> bool:
     """
-    pre: 0 <= c0 < _lim(0) and 0 <= c1 < _lim(1) and 0 <= c2 < _lim(2) and 0 <= c3 < _lim(3)
+    pre: _lo(0) <= c0 < _lim(0) and 0 <= c1 < _lim(1) and 0 <= c2 < _lim(2) and 0 <= c3 < _lim(3)
     post: _ == True
     """
-    codes = [_pick(c, 0, _lim(i)) for i, c in enumerate((c0, c1, c2, c3))]
+    codes = [_pick(c, _lo(i), _lim(i)) for i, c in enumerate((c0, c1, c2, c3))]
     with _NoTracing():
         return _body(*codes)
 
 
 def blocks_ok__twin(c0: int, c1: int, c2: int, c3: int) -> bool:
     """
-    pre: 0 <= c0 < _lim(0) and 0 <= c1 < _lim(1) and 0 <= c2 < _lim(2) and 0 <= c3 < _lim(3)
+    pre: _lo(0) <= c0 < _lim(0) and 0 <= c1 < _lim(1) and 0 <= c2 < _lim(2) and 0 <= c3 < _lim(3)
     post: _ == True
     """
-    codes = [_pick(c, 0, _lim(i)) for i, c in enumerate((c0, c1, c2, c3))]
+    codes = [_pick(c, _lo(i), _lim(i)) for i, c in enumerate((c0, c1, c2, c3))]
     with _NoTracing():
         return _body(*codes) is not True
